@@ -202,6 +202,15 @@ func (engine) Body(r *simdrv.Run) {
 	}
 }
 
+func (w *world) anyShutdownInvoked() bool {
+	for _, o := range w.ops {
+		if o.Kind == "shutdown" {
+			return true
+		}
+	}
+	return false
+}
+
 // finish runs the simulation and deals with the outcomes common to all scenarios. It returns false
 // if the history must not be evaluated further.
 func (w *world) finish(pendingDesc func() []string) bool {
@@ -316,6 +325,12 @@ func (w *world) traceScenario(plans [][]planOp) {
 	}
 	r.Res.Config["initial_processors"] = initial
 	r.Res.Config["nil_exporter_proc"] = nilIdx
+	if nilIdx < 4 {
+		r.Fault("processor-around-nil-exporter")
+	}
+	if blocking {
+		r.Fault("bsp-blocking-mode")
+	}
 	tp := sdktrace.NewTracerProvider(topts...)
 	tracer0 := tp.Tracer("before")
 	var spans []*spanEv
@@ -352,6 +367,15 @@ func (w *world) traceScenario(plans [][]planOp) {
 						tp.RegisterSpanProcessor(procs[op.arg])
 						regs[idx].ret = sim.Stamp()
 					} else {
+						registered := false
+						for _, e := range regs {
+							if e.proc == op.arg && e.kind == "register" {
+								registered = true
+							}
+						}
+						if !registered {
+							r.Fault("unregister-of-unregistered-processor")
+						}
 						regs = append(regs, ev)
 						idx := len(regs) - 1
 						tp.UnregisterSpanProcessor(procs[op.arg])
@@ -383,6 +407,12 @@ func (w *world) traceScenario(plans [][]planOp) {
 					r.Log("%d end-return %s", sv.endRet, sv.name)
 				case "flush", "shutdown":
 					ctx, cancel, ck := simdrv.MkCtx(op.ctxK, time.Second)
+					if op.ctxK != 0 {
+						r.Fault("caller-ctx-" + strings.SplitN(ck, "(", 2)[0])
+					}
+					if w.anyShutdownInvoked() {
+						r.Fault(op.kind + "-after-or-during-shutdown")
+					}
 					o := &simdrv.OpCall{Kind: op.kind, Level: "tp", CtxKind: ck, Task: name, Inv: sim.Stamp()}
 					w.ops = append(w.ops, o)
 					inflight[name] = op.kind
@@ -656,6 +686,12 @@ func (w *world) metricScenario(plans [][]planOp) {
 					r.Log("%d collect err=%v total=%d", ev.ret, ev.err, ev.total)
 				case "flush", "shutdown":
 					ctx, cancel, ck := simdrv.MkCtx(op.ctxK, time.Second)
+					if op.ctxK != 0 {
+						r.Fault("caller-ctx-" + strings.SplitN(ck, "(", 2)[0])
+					}
+					if w.anyShutdownInvoked() {
+						r.Fault(op.kind + "-after-or-during-shutdown")
+					}
 					o := &simdrv.OpCall{Kind: op.kind, Level: "mp", CtxKind: ck, Task: name, Inv: sim.Stamp()}
 					w.ops = append(w.ops, o)
 					inflight[name] = op.kind
@@ -788,6 +824,12 @@ func (w *world) logScenario(plans [][]planOp) {
 					r.Log("%d emit fresh-logger=%v", ev.ret, ev.fresh)
 				case "flush", "shutdown":
 					ctx, cancel, ck := simdrv.MkCtx(op.ctxK, time.Second)
+					if op.ctxK != 0 {
+						r.Fault("caller-ctx-" + strings.SplitN(ck, "(", 2)[0])
+					}
+					if w.anyShutdownInvoked() {
+						r.Fault(op.kind + "-after-or-during-shutdown")
+					}
 					o := &simdrv.OpCall{Kind: op.kind, Level: "lp", CtxKind: ck, Task: name, Inv: sim.Stamp()}
 					w.ops = append(w.ops, o)
 					inflight[name] = op.kind
